@@ -18,6 +18,7 @@ import (
 	"strconv"
 	"sync"
 	"testing"
+	"testing/synctest"
 	"time"
 
 	"gitlab.com/yawning/obfs4.git/transports/base"
@@ -124,12 +125,49 @@ func (w *world) judge(h *hello, kind string, H int64, valid, expect bool, res *o
 	if res.Accepted {
 		r.Count("accepted", 1)
 		// the reply must verify under the hour the client used
-		if _, _, err := h.h.ParseServerResponse(res.ServerData); err != nil {
+		if _, sess, err := h.h.ParseServerResponse(res.ServerData); err != nil {
 			if expect {
 				c.Violation("reply-not-bound-to-client-hour/"+cell, fmt.Sprintf("the reference client (hour %d) cannot verify the server's reply: %v", h.stamp, err), wit)
 			}
 		} else {
 			r.Count("reply_verified_under_client_hour", 1)
+			// the accepted connection is used before it ends: the client sends a
+			// frame about as long as its hello and a few more (what the bridge
+			// remembers of a handshake may not depend on buffers that live on)
+			enc := ref.NewEncoder(sess.C2S)
+			L := len(h.h.Bytes)
+			sizes := []int{L - 8 - 21, 1 + w.rng.IntN(600), 1 + w.rng.IntN(600), L - 21}
+			got := make(chan int64, 1)
+			c.Go(nil, func() {
+				var n int64
+				buf := make([]byte, 4096)
+				for {
+					k, err := res.Conn.Read(buf)
+					n += int64(k)
+					if err != nil {
+						got <- n
+						return
+					}
+				}
+			})
+			var sent int64
+			for _, sz := range sizes {
+				if sz < 1 {
+					sz = 1
+				}
+				if sz > ref.MaxPacketData {
+					sz = ref.MaxPacketData
+				}
+				res.Client.Write(enc.DataFrame(make([]byte, sz), 0))
+				sent += int64(sz)
+			}
+			synctest.Wait()
+			res.Client.Close()
+			if n := <-got; n != sent {
+				c.Violation("accepted-connection-broken/"+cell, fmt.Sprintf("the bridge delivered %d of %d bytes the accepted client sent", n, sent), wit)
+			} else {
+				r.Count("accepted_connections_used", 1)
+			}
 		}
 		res.Conn.Close()
 		res.Client.Close()
